@@ -1,10 +1,10 @@
 SPECIFICATION Spec
 CONSTANTS
-  MaxObjs = 2
-  UIds <- UAll
-  RowSet <- RowsPairwise
-  AllowDup = FALSE
-  DedupInput = FALSE
+  MaxObjs = 3
+  UIds <- UDup
+  RowSet <- RowsPlain
+  AllowDup = TRUE
+  DedupInput = TRUE
   OfsPlain = FALSE
   EmitMod = 1
   EmitRes = 0
